@@ -61,6 +61,30 @@ func computeFrames(P *Program, S *SpecSet) *FrameInfo {
 			fb.impls[fn.Name()] = append(fb.impls[fn.Name()], fn)
 		}
 	}
+	fieldStores = map[string][]ssa.Value{}
+	fieldStoresOpaque = map[string]bool{}
+	for _, fn := range all {
+		for _, b := range fn.Blocks {
+			for _, in := range b.Instrs {
+				st, ok := in.(*ssa.Store)
+				if !ok {
+					continue
+				}
+				if fa, ok := st.Addr.(*ssa.FieldAddr); ok {
+					if _, isIface := st.Val.Type().Underlying().(*types.Interface); isIface {
+						fieldStores[fieldKey(fa)] = append(fieldStores[fieldKey(fa)], st.Val)
+					}
+				} else if _, isStruct := deref(st.Addr.Type()).Underlying().(*types.Struct); isStruct {
+					// whole-struct store: fields of that struct type become opaque
+					stt := deref(st.Addr.Type())
+					sts := stt.Underlying().(*types.Struct)
+					for i := 0; i < sts.NumFields(); i++ {
+						fieldStoresOpaque[typeKey(stt)+"."+sts.Field(i).Name()] = true
+					}
+				}
+			}
+		}
+	}
 	for _, fn := range all {
 		info.mods[fn] = map[string]bool{}
 		fb.direct(fn)
@@ -327,12 +351,41 @@ func (fb *frameBuilder) implsOf(c *ssa.CallCommon) []*ssa.Function {
 
 // receiverSources traces an interface value back to its sources inside the function.
 // known=false means some source is opaque (parameter, load, in-repo call result).
+// fieldStores: for every struct field of interface type, the values stored into it anywhere in
+// the repository (whole-program, flow-insensitive). Filled by computeFrames.
+var fieldStores = map[string][]ssa.Value{}
+var fieldStoresOpaque = map[string]bool{}
+
+func fieldKey(fa *ssa.FieldAddr) string {
+	st := deref(fa.X.Type())
+	return typeKey(st) + "." + st.Underlying().(*types.Struct).Field(fa.Field).Name()
+}
+
 func receiverSources(v ssa.Value, seen map[ssa.Value]bool) (known bool, concrete []types.Type) {
 	if seen[v] {
 		return true, nil
 	}
 	seen[v] = true
 	switch x := v.(type) {
+	case *ssa.UnOp:
+		if fa, ok := x.X.(*ssa.FieldAddr); ok && x.Op == token.MUL {
+			k := fieldKey(fa)
+			// only unexported fields of repository types: nobody outside can store to them
+			st := deref(fa.X.Type())
+			fld := st.Underlying().(*types.Struct).Field(fa.Field)
+			if fld.Exported() || !inRepo(namedPkg(st)) || fieldStoresOpaque[k] {
+				return false, nil
+			}
+			var all []types.Type
+			for _, sv := range fieldStores[k] {
+				kn, c := receiverSources(sv, seen)
+				if !kn {
+					return false, nil
+				}
+				all = append(all, c...)
+			}
+			return true, all
+		}
 	case *ssa.MakeInterface:
 		return true, []types.Type{x.X.Type()}
 	case *ssa.ChangeInterface:
